@@ -6,7 +6,8 @@
     returns (the same text FETCH BODY[] serves); a reconstruction error
     (every key answers false) is not modelled.
 
-    time.Parse(time.RFC1123Z / time.RFC1123, ...) is modelled on its canonical
+    net/mail.ParseDate is modelled on its canonical domain (Model/Search.v, mail_date).
+    (previously:) time.Parse(time.RFC1123Z / time.RFC1123, ...) was modelled on its canonical
     domain only: "Mon, 02 Jan 2006 15:04:05 -0700" / "... MST" with single
     spaces, two-digit day, one- or two-digit hour; anything else is a parse
     error here (Go additionally tolerates runs of spaces and fractional
@@ -16,43 +17,35 @@ From Raven Require Import Base.GoStr Model.Search.
 Import ListNotations.
 Local Open Scope Z_scope.
 
-(** the header lines: strings.Split(raw, "\n"), each TrimRight(line, "\r"),
-    up to the first empty one *)
-Fixpoint header_lines (lines : list str) : list str :=
+(** headerFieldValues (fix "SEARCH matches each occurrence of a header field"):
+    the unfolded value of every occurrence of the field; [acc] is the slice
+    [values], last element first *)
+Fixpoint hfv_loop (lines : list str) (field_colon : str) (in_target : bool) (acc : list str) : list str :=
   match lines with
-  | [] => []
-  | l :: ls => match trim_right l [CR] with
-               | [] => []
-               | line => line :: header_lines ls
-               end
-  end.
-
-Definition after_colon (line : str) : str :=
-  match index line [colon] with
-  | Some i => trim_space (skipn (S i) line)
-  | None => []
-  end.
-
-(** headerContains: the loop; [value] is the strings.Builder *)
-Fixpoint hc_loop (lines : list str) (field_colon : str) (in_target : bool) (value : str) : str :=
-  match lines with
-  | [] => value
+  | [] => rev acc
   | line :: ls =>
       match line with
       | c :: _ =>
           if Ascii.eqb c sp || Ascii.eqb c tab then
-            if in_target then hc_loop ls field_colon in_target (value ++ [sp] ++ trim_space line)
-            else hc_loop ls field_colon in_target value
+            if in_target then
+              match acc with
+              | v :: acc' => hfv_loop ls field_colon in_target ((v ++ line) :: acc')   (* values[len(values)-1] += line *)
+              | [] => hfv_loop ls field_colon in_target acc                             (* not reachable *)
+              end
+            else hfv_loop ls field_colon in_target acc
           else if has_prefix (to_upper line) field_colon
-               then hc_loop ls field_colon true (value ++ after_colon line)
-               else hc_loop ls field_colon false value
-      | [] => value
+               then hfv_loop ls field_colon true (value_after_colon line :: acc)
+               else hfv_loop ls field_colon false acc
+      | [] => rev acc
       end
   end.
 
+Definition header_field_values (raw field : str) : list str :=
+  hfv_loop (header_lines (split_byte raw LF)) (to_upper field ++ [colon]) false [].
+
+(** headerContains: some occurrence contains the string *)
 Definition header_contains (raw field search : str) : bool :=
-  let value := hc_loop (header_lines (split_byte raw LF)) (to_upper field ++ [colon]) false [] in
-  contains (to_upper value) (to_upper search).
+  existsb (fun value => contains (to_upper value) (to_upper search)) (header_field_values raw field).
 
 Definition has_header (raw field : str) : bool :=
   existsb (fun line => has_prefix (to_upper line) (to_upper field ++ [colon])) (header_lines (split_byte raw LF)).
@@ -88,75 +81,30 @@ Definition matches_size (m : msg) (size : Z) (larger : bool) : bool :=
   let n := Z.of_nat (length (m_text m)) in
   if larger then size <? n else n <? size.
 
-(** the Date: header matchesSentDate reads: first header line with prefix
-    "DATE:" (upper-cased), text after the first colon, trimmed *)
-Fixpoint date_header (lines : list str) : str :=
-  match lines with
-  | [] => []
-  | line :: ls => if has_prefix (to_upper line) (S_ "DATE:") then after_colon line else date_header ls
-  end.
-
-Definition day_names : list str := [S_ "SUN"; S_ "MON"; S_ "TUE"; S_ "WED"; S_ "THU"; S_ "FRI"; S_ "SAT"].
-Definition is_upper_letter (c : ascii) : bool := is_upper c.
-
-Definition two_digits_below (a b : ascii) (lim : Z) : bool :=
-  is_digit a && is_digit b && (digits_val [a; b] 0 <? lim).
-
-(** zone of RFC1123Z: sign and four digits; of RFC1123: "UTC", or three
-    upper-case letters, or four ending in T (time.parseTimeZone without the
-    GMT+n form) *)
-Definition zone_ok (z : str) : bool :=
-  match z with
-  | [s; a; b; c; d] =>
-      ((Ascii.eqb s "+"%char || Ascii.eqb s minus) && forallb is_digit [a; b; c; d]
-         && (digits_val [a; b] 0 <=? 24) && (digits_val [c; d] 0 <? 60))
-  | [a; b; c] => forallb is_upper_letter [a; b; c]
-  | [a; b; c; d] => forallb is_upper_letter [a; b; c; d] && Ascii.eqb d "T"%char
-  | _ => false
-  end.
-
-Definition time_zone_ok (s : str) : bool :=
-  (* "15:04:05 zone" with a one- or two-digit hour *)
-  match s with
-  | h1 :: h2 :: c1 :: m1 :: m2 :: c2 :: s1 :: s2 :: x :: z =>
-      if Ascii.eqb c1 colon then
-        two_digits_below h1 h2 24 && Ascii.eqb c2 colon && two_digits_below m1 m2 60
-        && two_digits_below s1 s2 60 && Ascii.eqb x sp && zone_ok z
-      else
-        (* one-digit hour: h1 ':' c1 m1 ':' m2 c2 ' ' zone   (positions shifted by one) *)
-        is_digit h1 && Ascii.eqb h2 colon && two_digits_below c1 m1 60 && Ascii.eqb m2 colon
-        && two_digits_below c2 s1 60 && Ascii.eqb s2 sp && zone_ok (x :: z)
-  | _ => false
-  end.
-
-Definition parse_rfc1123 (s : str) : option date :=
-  match s with
-  | w1 :: w2 :: w3 :: c :: x1 :: d1 :: d2 :: x2 :: a :: b :: e :: x3 :: y1 :: y2 :: y3 :: y4 :: x4 :: rest =>
-      if existsb (str_eqb (to_upper [w1; w2; w3])) day_names
-         && Ascii.eqb c ","%char && Ascii.eqb x1 sp && is_digit d1 && is_digit d2 && Ascii.eqb x2 sp
-         && Ascii.eqb x3 sp && forallb is_digit [y1; y2; y3; y4] && Ascii.eqb x4 sp && time_zone_ok rest
-      then mk_date [d1; d2] [a; b; e] [y1; y2; y3; y4]
-      else None
-  | _ => None
-  end.
-
+(** matchesSentDate (fix "SENT* keys read RFC 5322 dates"): the first Date:
+    field, unfolded and trimmed, through net/mail.ParseDate ([mail_date]); the
+    RFC1123Z / RFC1123 layouts tried afterwards accept nothing ParseDate rejects *)
 Definition matches_sent_date (m : msg) (date_str : str) (c : dcmp) : bool :=
-  match date_header (header_lines (split_byte (m_text m) LF)) with
+  match header_field_values (m_text m) (S_ "Date") with
   | [] => false
-  | dh =>
-      match parse_rfc1123 dh with
-      | Some sent =>
-          match parse_imap_date date_str with
-          | None => false
-          | Some target =>
-              match c, date_cmp sent target with
-              | CBefore, Lt => true
-              | COn, Eq => true
-              | CSince, (Eq | Gt) => true
-              | _, _ => false
+  | v :: _ =>
+      match trim_space v with
+      | [] => false
+      | dh =>
+          match mail_date dh with
+          | Some sent =>
+              match parse_imap_date date_str with
+              | None => false
+              | Some target =>
+                  match c, date_cmp sent target with
+                  | CBefore, Lt => true
+                  | COn, Eq => true
+                  | CSince, (Eq | Gt) => true
+                  | _, _ => false
+                  end
               end
+          | None => false
           end
-      | None => false
       end
   end.
 
